@@ -7,3 +7,4 @@ extern crate alloc;
 pub mod sym;
 pub mod stubs;
 pub mod c12;
+pub mod c13;
